@@ -1,4 +1,4 @@
-mod rng; mod util; mod c17; mod oplist; mod ops; mod amod; mod c03; mod env; mod sigs; mod gen; mod gen_ir_print; mod irdump; mod body; mod c15; mod wmodcoq; mod genattr; mod modrun; mod oracles; mod dbg; mod c18; mod c11; mod c05; mod c10; mod c09; mod c01; mod deep; mod c18x; mod c14;
+mod rng; mod util; mod c17; mod oplist; mod ops; mod amod; mod c03; mod env; mod sigs; mod gen; mod gen_ir_print; mod irdump; mod body; mod c15; mod wmodcoq; mod genattr; mod modrun; mod oracles; mod dbg; mod c18; mod c11; mod c05; mod c10; mod c09; mod c01; mod deep; mod c18x; mod c14; mod diecur;
 fn main() {
     util::quiet_panics();
     let args: Vec<String> = std::env::args().collect();
@@ -14,6 +14,7 @@ fn main() {
         Some("c05") => c05::main(&args[2..]),
         Some("c10") => c10::main(&args[2..]),
         Some("c14cfg") => c14::main(&args[2..]),
+        Some("diecur") => diecur::main(&args[2..]),
         Some("c09gen") => c09::gen_main(&args[2..]),
         Some("c01gen") => c01::gen_main(&args[2..]),
         Some("deep") => deep::main(&args[2..]),
